@@ -30,6 +30,8 @@ type Engine struct {
 	mutCache  map[*packages.Package]map[*types.Var]bool
 	implicit  []*implicitJob // helpers without contract called from nopanic functions: verified under an implicit no-panic contract
 	implDone  map[string]bool
+	names       map[string]funcNames // ledger/names.json: recorded identifier names of the functions under contract
+	nameRepairs []string             // repairs applied in this run (echoed in the evidence)
 }
 
 type implicitJob struct {
@@ -106,6 +108,7 @@ func (E *Engine) contractsOf(pkgPath string) *PkgContracts {
 	E.contracts[pkgPath] = pc
 	if pc != nil {
 		E.expandWildcards(pkgPath, pc)
+		E.repairNames(pkgPath, pc)
 	}
 	return pc
 }
@@ -723,6 +726,15 @@ func (E *Engine) VerifyFunc(p *packages.Package, pc *PkgContracts, c *FuncContra
 	sort.Strings(res.Notes)
 	res.Errs = append(res.Errs, f.errs...)
 	res.Errs = append(res.Errs, f.cerrs...)
+	// obligation names keep the identifiers the contract was written with (names.go: renamed receiver / locals)
+	if len(c.Unrename) > 0 {
+		for _, o := range res.Obls {
+			o.Name = unrenameObligation(o.Name, f.key, c.Unrename)
+			if o.Guard != nil {
+				o.Guard.Name = unrenameObligation(o.Guard.Name, f.key, c.Unrename)
+			}
+		}
+	}
 	// uniquify obligation names
 	seen := map[string]int{}
 	for _, o := range res.Obls {
